@@ -46,6 +46,10 @@ func NewObject(objType Type, data []byte) (*Object, error) {
 }
 
 func GetObject(rootGoitPath string, hash sha.SHA1) (*Object, error) {
+	// e.g. the missing tree of a commit object that has no "tree" line
+	if len(hash) != 20 {
+		return nil, ErrInvalidObject
+	}
 	hashString := hash.String()
 	objPath := filepath.Join(rootGoitPath, "objects", hashString[:2], hashString[2:])
 	objFile, err := os.Open(objPath)
